@@ -28,6 +28,7 @@ def res_ok(result, exact, prec, rnd):
 # ------------------------------------------------------------------ assumed views of libmpf
 @contract(F + 'mpf_add', view='real')
 class _:
+    search = 'rv2_inputs'
     assumed = True
     shapes = dict(s='mpf', t='mpf', prec='int')
     result = 'mpf'
@@ -50,6 +51,7 @@ class _:
 
 @contract(F + 'mpf_sub', view='real')
 class _:
+    search = 'rv2_inputs'
     assumed = True
     shapes = dict(s='mpf', t='mpf', prec='int')
     result = 'mpf'
@@ -73,6 +75,7 @@ class _:
 
 @contract(F + 'python_mpf_mul', view='real')
 class _:
+    search = 'rv2_inputs'
     assumed = True
     shapes = dict(s='mpf', t='mpf', prec='int')
     result = 'mpf'
@@ -94,6 +97,7 @@ class _:
 
 @contract(F + 'mpf_div', view='real')
 class _:
+    search = 'rv2_inputs'
     assumed = True
     shapes = dict(s='mpf', t='mpf', prec='int')
     result = 'mpf'
@@ -118,6 +122,7 @@ class _:
 
 @contract(F + 'mpf_neg', view='real')
 class _:
+    search = 'rv1_inputs'
     assumed = True
     shapes = dict(s='mpf', prec='int')
     result = 'mpf'
@@ -140,6 +145,7 @@ class _:
 
 @contract(F + 'mpf_pos', view='real')
 class _:
+    search = 'rv1_inputs'
     assumed = True
     shapes = dict(s='mpf', prec='int')
     result = 'mpf'
@@ -155,6 +161,7 @@ class _:
 
 @contract(F + 'mpf_sign', view='real')
 class _:
+    search = 'rv1_inputs'
     assumed = True
     shapes = dict(s='mpf')
     result = 'int'
@@ -174,6 +181,7 @@ class _:
 
 @contract(F + 'mpf_lt', view='real')
 class _:
+    search = 'rv2_inputs'
     assumed = True
     shapes = dict(s='mpf', t='mpf')
     result = 'bool'
@@ -189,6 +197,7 @@ class _:
 
 @contract(F + 'mpf_le', view='real')
 class _:
+    search = 'rv2_inputs'
     assumed = True
     shapes = dict(s='mpf', t='mpf')
     result = 'bool'
@@ -204,6 +213,7 @@ class _:
 
 @contract(F + 'mpf_gt', view='real')
 class _:
+    search = 'rv2_inputs'
     assumed = True
     shapes = dict(s='mpf', t='mpf')
     result = 'bool'
@@ -219,6 +229,7 @@ class _:
 
 @contract(F + 'mpf_ge', view='real')
 class _:
+    search = 'rv2_inputs'
     assumed = True
     shapes = dict(s='mpf', t='mpf')
     result = 'bool'
@@ -397,6 +408,7 @@ def none_nan(seq):
 
 @contract(F + 'mpf_min_max', view='real')
 class _:
+    search = 'rvseq_inputs'
     """(min, max) of a list of 2 or 4 non-nan values: members of the list bounding all of it"""
     assumed = True
     shapes = dict(seq=('tuple', 'mpf', 'mpf', 'mpf', 'mpf'))
